@@ -177,3 +177,45 @@ Proof. intros z. vm_compute. repeat split. Qed.
 (* ipol is tagged omitempty: it is present because it is always true *)
 Theorem txpk_ipol_present : key_present "ipol" false = true.
 Proof. vm_compute. reflexivity. Qed.
+
+(* ---------- C11, datagram side: nothing a gateway port receives can wedge the loop ---------- *)
+(* GwPacket.UnmarshalBinary returns a packet or an error for every byte string *)
+Theorem gw_unmarshal_total data : gw_unmarshal data <> Panic.
+Proof.
+  unfold gw_unmarshal. destruct data as [|v [|t1 [|t2 [|id rest]]]]; try discriminate.
+  repeat (match goal with |- context [if ?c then _ else _] => destruct c end; try discriminate).
+Qed.
+(* whatever the datagram: at most one reply, it is an acknowledgement echoing token and version to the sender;
+   registrations and the checks switch are never touched *)
+Theorem any_datagram_at_most_the_ordinary_ack s d :
+  (length (snd (fst (gw_step s d))) <= 1)%nat /\
+  Forall (fun r => (rp_ident r = gw_PullAck \/ rp_ident r = gw_PushAck) /\ rp_token r = gp_token (dg_pkt d) /\ rp_ver r = gp_ver (dg_pkt d) /\
+                   rp_host r = dg_host d /\ rp_port r = dg_port d) (snd (fst (gw_step s d))) /\
+  gs_regs (fst (fst (gw_step s d))) = gs_regs s /\ gs_nochecks (fst (fst (gw_step s d))) = gs_nochecks s.
+Proof.
+  unfold gw_step. destruct (gp_ident (dg_pkt d) =? gw_PullData); [|destruct (gp_ident (dg_pkt d) =? gw_PushData); [destruct (authorised s d)|]];
+    cbn [fst snd length gs_regs gs_nochecks]; (split; [lia|]); (split; [|split; reflexivity]);
+    try (constructor; [|constructor]; cbn [rp_ident rp_token rp_ver rp_host rp_port]; (split; [first [left; reflexivity | right; reflexivity] | repeat split])); try constructor.
+Qed.
+(* ... so after ANY sequence of datagrams the loop serves as before: who is authorised is unchanged, a PULL_DATA is
+   acknowledged and an authorised PUSH_DATA is acknowledged and its entries forwarded *)
+Theorem still_serving_after_anything ds : forall s,
+  gs_regs (run_gw s ds) = gs_regs s /\ gs_nochecks (run_gw s ds) = gs_nochecks s.
+Proof.
+  induction ds as [|d t IH]; intros s; cbn [run_gw fold_left]; [auto|]. fold (run_gw (fst (fst (gw_step s d))) t).
+  destruct (IH (fst (fst (gw_step s d)))) as [A B]. destruct (any_datagram_at_most_the_ordinary_ack s d) as (_ & _ & C & Dd).
+  split; congruence.
+Qed.
+Corollary authorised_after_anything ds s d : authorised (run_gw s ds) d = authorised s d.
+Proof. destruct (still_serving_after_anything ds s) as [A B]. unfold authorised. now rewrite A, B. Qed.
+
+(* C16: no hidden state - what a datagram gets depends on the checks switch and on the registration of the EUI it
+   claims AS IT IS NOW (so registering, updating or deleting a gateway takes effect for the very next datagram) *)
+Theorem decision_depends_on_current_registration s s' d :
+  gs_nochecks s = gs_nochecks s' -> find_reg (gs_regs s) (gp_eui (dg_pkt d)) = find_reg (gs_regs s') (gp_eui (dg_pkt d)) ->
+  snd (fst (gw_step s d)) = snd (fst (gw_step s' d)) /\ snd (gw_step s d) = snd (gw_step s' d).
+Proof.
+  intros Hn Hf. assert (Ha : authorised s d = authorised s' d) by (unfold authorised; now rewrite Hn, Hf).
+  unfold gw_step. destruct (gp_ident (dg_pkt d) =? gw_PullData); [split; reflexivity|].
+  destruct (gp_ident (dg_pkt d) =? gw_PushData); [|split; reflexivity]. rewrite Ha. destruct (authorised s' d); split; reflexivity.
+Qed.
